@@ -1,9 +1,13 @@
 #!/bin/bash
-# confirm_seed.sh <worktree> <seed dir>: suite passes with the patch, demo fails with it and passes without it
-wt=$1; sd=$2
+# confirm_seed.sh <worktree> <seed dir>: suite passes with the patch, demo fails with it and passes without it.
+# The worktree must be clean; the patch is taken from the seed directory (no git stash: the stash stack is
+# shared between the worktrees of one repository, parallel confirmations would swap patches).
+wt=$1; sd=$(realpath $2)
 cd $wt || exit 2
-git diff --quiet && { echo "no patch applied in $wt"; exit 2; }
+git diff --quiet || { echo "$wt is not clean"; exit 2; }
+PYTHONPATH=$wt/src /venv/bin/python $sd/demo.py >/dev/null 2>&1; without=$?
+git apply $sd/patch.diff || { echo "patch does not apply"; exit 2; }
 PYTHONPATH=$wt/src /venv/bin/python $sd/demo.py >/dev/null 2>&1; with=$?
-git stash -q; PYTHONPATH=$wt/src /venv/bin/python $sd/demo.py >/dev/null 2>&1; without=$?; git stash pop -q
-PYTHONPATH=$wt/src /venv/bin/python -m pytest -q -p no:cacheprovider --timeout=900 -x 2>&1 | tail -1 > /tmp/suite_$$.txt
+PYTHONPATH=$wt/src /venv/bin/python -m pytest -q -p no:cacheprovider --timeout=900 2>&1 | tail -1 > /tmp/suite_$$.txt
+git checkout -- .
 echo "demo_with_patch_exit=$with demo_without_patch_exit=$without suite: $(cat /tmp/suite_$$.txt)"; rm -f /tmp/suite_$$.txt
